@@ -87,6 +87,7 @@ ShapesWide  == {<<1,4>>, <<4,1>>, <<2,4>>, <<4,2>>}
 Shapes3x4   == {<<3,4>>, <<4,3>>}
 Shapes4x4   == {<<4,4>>}
 Shapes2x3   == {<<2,3>>, <<3,2>>}
+ShapesC19a  == {<<2,2>>, <<2,3>>, <<3,2>>}
 
 \* ---- slot-set view (design specs keep the connection structure as a SET of slots <<d,i,j>>) ----
 ConnOfSlots(R, C, S) == [d \in 1..2 |-> [i \in 1..R |-> [j \in 1..C |-> IF <<d-1, i-1, j-1>> \in S THEN 1 ELSE 0]]]
